@@ -85,7 +85,7 @@ def pmodel(lines, nproc=16):
 
 # ------------------------------------------------------------------ S-expression helpers
 
-_TOK_RE = re.compile(r'\((?:[^()"]|"(?:[^"\\]|\\.)*")*\)|[^\s()]+')
+_TOK_RE = re.compile(r'[+!]?\((?:[^()"]|"(?:[^"\\]|\\.)*")*\)|[^\s()]+')
 
 
 def split_toks(s):
